@@ -48,7 +48,7 @@ func init() {
 			poolInts = append(poolInts, d)
 		}
 	}
-	for _, v := range []int64{0, 1, 2, 3, 5, 7, 10, 100, 1000003, 3037000499, 3037000500, 4611686018427387904, 6074001000, 1 << 31, 1<<31 - 1, 1 << 32, 1<<32 - 1} {
+	for _, v := range []int64{0, 1, 2, 3, 5, 7, 10, 100, 1074, 1075, 1000003, 3037000499, 3037000500, 4611686018427387904, 6074001000, 1 << 31, 1<<31 - 1, 1 << 32, 1<<32 - 1} {
 		add(big.NewInt(v))
 		add(big.NewInt(-v))
 	}
@@ -61,7 +61,7 @@ func init() {
 		}
 	}
 	// small values held in the big representation (the code does not normalise)
-	poolInts = append(poolInts, "Big:0", "Big:1", "Big:-1", "Big:5", "Big:512", "Big:511", "Big:9223372036854775807", "Big:-9223372036854775808")
+	poolInts = append(poolInts, "Big:0", "Big:1", "Big:-1", "Big:5", "Big:512", "Big:511", "Big:1074", "Big:1075", "Big:9223372036854775807", "Big:-9223372036854775808")
 
 	poolFloats = []string{
 		"F64:0p0", "F64:-0", "F64:1p0", "F64:-1p0", "F64:1p1", "F64:1p-1", "F64:3p-1", "F64:5p-1", "F64:3p0", "F64:1p-1074", "F64:9007199254740991p971",
@@ -156,8 +156,10 @@ func opCases(c *Ctx) {
 			opCase(c, "repr", k, x)
 		}
 		opCase(c, "zero", x)
-		opCase(c, "shifterr", "<<", x)
-		opCase(c, "shifterr", ">>", x)
+		for _, x1 := range []string{"I64:0", "I64:1", "Big:0", "F64:-0", "Rat:1/3"} {
+			opCase(c, "shifterr", "<<", x1, x)
+			opCase(c, "shifterr", ">>", x1, x)
+		}
 	}
 	for _, x := range append(append([]string{}, poolStrs...), poolBools...) {
 		for _, op := range []string{"+", "-", "!", "^"} {
@@ -220,7 +222,7 @@ func opCases(c *Ctx) {
 		}
 	}
 	// shifts: every number as left operand, a set of counts
-	counts := []string{"I64:0", "I64:1", "I64:63", "I64:64", "I64:65", "I64:511", "I64:512", "I64:513", "I64:-1", "Big:18446744073709551615", "Big:18446744073709551616", "F64:1p1", "F64:3p-1", "Rat:4/1", "Rat:1/3", "BigF:1p3", "Cplx:I64:2,I64:0", "Cplx:I64:2,I64:1", "Big:3", "Big:-3", "I64:448", "I64:449", "I64:1074", "I64:9223372036854775807"}
+	counts := []string{"I64:0", "I64:1", "I64:63", "I64:64", "I64:65", "I64:511", "I64:512", "I64:513", "I64:-1", "Big:18446744073709551615", "Big:18446744073709551616", "F64:1p1", "F64:3p-1", "Rat:4/1", "Rat:1/3", "BigF:1p3", "Cplx:I64:2,I64:0", "Cplx:I64:2,I64:1", "Big:3", "Big:-3", "I64:448", "I64:449", "I64:1074", "I64:1075", "Big:1074", "Big:1075", "F64:537p1", "F64:1075p0", "I64:9223372036854775807"}
 	for i, x := range all {
 		for j, n := range counts {
 			if !c.Thorough() && (i+j)%3 != 0 {
@@ -570,11 +572,6 @@ func signature(d *Decl, v verdict) string {
 	default:
 		cls = exprClass(d.E)
 	}
-	if strings.HasSuffix(v.kind, ":shiftcount") {
-		// go/types bounds every constant shift count by 1074 (an implementation
-		// restriction); Scriggo bounds only left shifts, by 511
-		return "shift-count-limit"
-	}
 	if (v.kind == "value" || strings.HasPrefix(v.kind, "accepts") || strings.HasPrefix(v.kind, "rejects")) && d.A == nil && softOperand(d.E) {
 		return "float-rounding-visible"
 	}
@@ -874,6 +871,18 @@ var corpus = []string{
 	"const C = complex64(1e-400 + 16777217.0)",
 	"const C = float64(1e400 / 3)",
 	"const C = float64(-1e-400 / 3)",
+	// regressions of fix d3683c7 (the count limit was 511 for << only, also for a zero operand)
+	"const C = 0 << 512",
+	"const C = 0 << 1074",
+	"const C = 0 << 1075",
+	"const C = 1 >> 2000",
+	"const C = 1 >> 1074",
+	"const C = 1 >> 1075",
+	"const C = 1 << 512",
+	"const C = 0.0 << 600",
+	"const C = int8(0) << 600",
+	"const C = uint8(1) << 600",
+	"const C = -1 >> 1074",
 }
 
 // oracleDefect recognises the one input class on which go/constant itself is
